@@ -1,6 +1,7 @@
 package main
 
 import (
+	"github.com/lidofinance/dc4bc/fsm/types/requests"
 	"fmt"
 	"strings"
 
@@ -184,6 +185,24 @@ func scenarioC05(c *Ctx) {
 				case (ev.Kind == "confirm-late" || ev.Kind == "decline-late" || ev.Kind == "dkg-confirm-late" || ev.Kind == "master-late") && !strings.HasSuffix(after.State, "canceled_by_timeout"):
 					fail("late-not-cancelled", "an accepted contribution stamped after the deadline did not cancel the round", srcProj, ev, o)
 				}
+				// (1) exactly once: an accepted contribution comes from a participant that was still awaited
+				// (a repeated answer stamped after the deadline is a deadline event: it cancels by timeout)
+				if pid, ok := reqPid(ev.Req.val); ok && !strings.HasSuffix(after.State, "canceled_by_timeout") {
+					switch {
+					case ev.Name == "event_sig_proposal_confirm_by_participant" || ev.Name == "event_sig_proposal_decline_by_participant":
+						if st, in := before.SigStatus[pid]; in && st != 0 {
+							fail("delivered-twice", fmt.Sprintf("participant %d's answer to the invitation was accepted although it had already answered", pid), srcProj, ev, o)
+						}
+					default:
+						for k := 0; k < 4; k++ {
+							if ev.Name == dkgConfirmEv[k] || ev.Name == dkgErrorEv[k] {
+								if st, in := before.DkgStatus[pid]; in && st != 3*k {
+									fail("delivered-twice", fmt.Sprintf("a phase-%d contribution of participant %d was accepted although that participant was not awaited in this phase", k, pid), srcProj, ev, o)
+								}
+							}
+						}
+					}
+				}
 				// (1) shape
 				if v := readyShapeViolation(after); v != "" {
 					fail("ready-shape", v, srcProj, ev, o)
@@ -194,4 +213,22 @@ func scenarioC05(c *Ctx) {
 			"edges": res.Edges, "fixpoint": res.Fixpoint, "states_by_name": res.Terminal})
 	}
 	c.Notes["explorations"] = explored
+}
+
+func reqPid(v interface{}) (int, bool) {
+	switch r := v.(type) {
+	case requests.SignatureProposalParticipantRequest:
+		return r.ParticipantId, true
+	case requests.DKGProposalCommitConfirmationRequest:
+		return r.ParticipantId, true
+	case requests.DKGProposalDealConfirmationRequest:
+		return r.ParticipantId, true
+	case requests.DKGProposalResponseConfirmationRequest:
+		return r.ParticipantId, true
+	case requests.DKGProposalMasterKeyConfirmationRequest:
+		return r.ParticipantId, true
+	case requests.DKGProposalConfirmationErrorRequest:
+		return r.ParticipantId, true
+	}
+	return 0, false
 }
